@@ -319,12 +319,27 @@ impl JoinOp {
     }
 
     /// Extracts equi-join keys as (left_col, right_col) pairs.
+    ///
+    /// Both indices refer to the combined output schema. Each pair is oriented so that the
+    /// first index belongs to the left input and the second to the right input, whichever way
+    /// round the equality was written. If an equality compares two columns of the same input it
+    /// is not a join key, and no keys are returned (the join then runs as a nested loop join
+    /// with the full condition).
     pub fn extract_equi_keys(&self) -> Vec<(usize, usize)> {
         let mut keys = Vec::new();
         if let Some(cond) = &self.condition {
             Self::collect_equi_keys(cond, &mut keys);
         }
-        keys
+        let left_cols = self.left_schema.num_columns();
+        let mut oriented = Vec::with_capacity(keys.len());
+        for (a, b) in keys {
+            match (a < left_cols, b < left_cols) {
+                (true, false) => oriented.push((a, b)),
+                (false, true) => oriented.push((b, a)),
+                _ => return Vec::new(),
+            }
+        }
+        oriented
     }
 
     fn collect_equi_keys(expr: &BoundExpression, keys: &mut Vec<(usize, usize)>) {
